@@ -325,7 +325,7 @@ func check(c Case) error {
 	return checkRoundtrip(c)
 }
 
-// checkLines: the harness's own layout, read by Parse and by the streaming parser; nothing else (the
+// checkLines: the harness's own layout, read by Parse, by the streaming parser and by Parse through a gzip reader; nothing else (the
 // line-length sweep evaluates hundreds of long inputs).
 func checkLines(c Case) error {
 	want := records(c)
@@ -348,6 +348,20 @@ func checkLines(c Case) error {
 		}
 		return out
 	})
+	if err != nil {
+		return err
+	}
+	if err := same(what, got, want); err != nil {
+		return err
+	}
+	// the same text through a decompressing reader: it hands out its bytes in other portions than a reader over
+	// memory does, and its last portion together with the end of the stream
+	what = fmt.Sprintf("Parse(gzip reader over own layout %+v, longest line %d)", c.Layout, longestLine(c))
+	zr, zerr := gzip.NewReader(bytes.NewReader(gz(text)))
+	if zerr != nil {
+		return vk.Harnessf("gzip.NewReader on the harness's own gzip: %v", zerr)
+	}
+	got, err = bounded(what, func() []fasta.Fasta { return fasta.Parse(zr) })
 	if err != nil {
 		return err
 	}
